@@ -259,14 +259,12 @@ func (g *Grammar) ToRef() *ref.Grammar {
 
 // PrecAmbiguous reports rules whose precedence differs between "last
 // terminal" and yaccgo's documented "last rhs symbol that has a precedence",
-// or whose %prec names a token without precedence (don't-care zone).
+// (don't-care zone).
 func (g *Grammar) PrecAmbiguous() bool {
 	lv, _ := g.TokPrec()
 	for _, r := range g.Rules {
 		if r.Prec >= 0 {
-			if lv[r.Prec] == 0 {
-				return true
-			}
+			// %prec naming a token without a level: yacc and yaccgo agree (the rule has no precedence)
 			continue
 		}
 		lastT, lastP := -1, -1
